@@ -14,32 +14,33 @@ impl<A: Actor> Spawner<A> for SmolSpawner {
     where
         F: Future<Output = crate::DynResult<A>> + Send + 'static,
     {
-        let handle = Arc::new(async_lock::Mutex::new(Some(smol::spawn(future))));
-        log::trace!("spawning smol task");
+        // A `smol::Task` cancels its task when dropped. The task handle therefore lives in a
+        // guard that detaches it instead, wherever it ends up: in the shared slot (the actor
+        // handle was dropped or detached and no join future is left), or in a join future that
+        // is dropped while still pending. The actor keeps running in both cases, as it does
+        // with the other runtimes' join handles - and a join future that was created before the
+        // handle went away still finds the task in the slot.
+        struct DetachOnDrop<T>(Option<smol::Task<T>>);
+        impl<T> Drop for DetachOnDrop<T> {
+            fn drop(&mut self) {
+                if let Some(task) = self.0.take() {
+                    task.detach();
+                }
+            }
+        }
 
-        let detach_handle = Arc::clone(&handle);
+        let handle = Arc::new(async_lock::Mutex::new(Some(DetachOnDrop(Some(smol::spawn(future))))));
+        log::trace!("spawning smol task");
 
         ActorHandle::new(move || -> JoinFuture<A> {
             log::trace!("joining smol task");
             let handle = Arc::clone(&handle);
             Box::pin(async move {
-                let mut handle: Option<smol::Task<DynResult<A>>> = handle.lock().await.take();
+                let mut handle: Option<DetachOnDrop<DynResult<A>>> = handle.lock().await.take();
 
-                if let Some(handle) = handle.take() {
+                if let Some(mut handle) = handle.take() {
                     // TODO: don't eat the error
 
-                    // a `smol::Task` cancels its task when dropped: if this join future is
-                    // dropped while still pending the actor must keep running (detached), as
-                    // it does with the other runtimes' join handles
-                    struct DetachOnDrop<T>(Option<smol::Task<T>>);
-                    impl<T> Drop for DetachOnDrop<T> {
-                        fn drop(&mut self) {
-                            if let Some(task) = self.0.take() {
-                                task.detach();
-                            }
-                        }
-                    }
-                    let mut handle = DetachOnDrop(Some(handle));
                     // awaiting a task that panicked panics in the awaiter: report it as `None`
                     let actor = match handle.0.as_mut() {
                         Some(task) => futures::FutureExt::catch_unwind(std::panic::AssertUnwindSafe(task))
@@ -55,13 +56,6 @@ impl<A: Actor> Spawner<A> for SmolSpawner {
                     None
                 }
             })
-        })
-        .with_detach_fn(move || {
-            log::trace!("detaching smol task");
-            let mut handle = detach_handle.lock_blocking().take();
-            if let Some(handle) = handle.take() {
-                handle.detach();
-            }
         })
     }
 
